@@ -4,13 +4,15 @@ import json, os, hashlib, itertools, random, time
 from yvlib import *
 
 # ---------------------------------------------------------------------------- ownership of mismatch kinds
-def owner(what, cfg):
+def owner(what, cfg, calls=0):
     """Which property a harness mismatch belongs to (cfg = 'la,one,cost,rec,match,dbg,mem')."""
     parts = cfg.split(",") if cfg and cfg[0].isdigit() or cfg.startswith("-") else None
     one = cost = rec = None
     if parts and len(parts) >= 7:
         one, cost, rec = int(parts[1]), int(parts[2]), int(parts[3])
     w = what
+    if w.startswith("TERM attribute") and calls > 0:
+        return "C07"      # tree of a recovered parse
     if w.startswith("cache:"):
         return "C09"
     if w.startswith(("parse_free", "parse_alloc", "terminal callback", "reachable node")):
@@ -45,6 +47,8 @@ def owner(what, cfg):
 
 
 def gid_of(vec):
+    if vec.get("id"):
+        return str(vec["id"])
     return hashlib.sha1(json.dumps(vec["rules"], sort_keys=True).encode()).hexdigest()[:12]
 
 
@@ -71,10 +75,15 @@ def blocks_from_vector(vec, configs, codemap="ascii", define_only=False, mems=(0
     """One harness block for a vector.  configs: list of (la, one, cost, rec, match, dbg)."""
     code = CODEMAPS[codemap]
     g = gid_of(vec)
-    terms = sorted({s for r in vec["rules"] for s in r["r"] if 0 < s < 10} | set(vec.get("terms", [1, 2])))
     lines = ["G " + g]
-    for t in terms:
-        lines.append("T %s %d" % (tname(t), code(t)))
+    if vec.get("terms") and isinstance(vec["terms"][0], dict):
+        terms = [t["n"] for t in vec["terms"]]
+        for t in vec["terms"]:
+            lines.append("T %s %d" % (tname(t["n"]), code(t["c"]) if t["c"] > 0 else t["c"]))
+    else:
+        terms = sorted({s for r in vec["rules"] for s in r["r"] if 0 < s < 10} | set(vec.get("terms", [1, 2])))
+        for t in terms:
+            lines.append("T %s %d" % (tname(t), code(t)))
     for r in vec["rules"]:
         lines.append(rule_line(r))
     dn, ds = vec["dn"], vec["ds"]
@@ -202,7 +211,7 @@ def abort_key(r):
 
 
 def mismatch_key(r):
-    return "%s|%s" % (owner(r["what"], r["cfg"]), r["what"])
+    return "%s|%s" % (owner(r["what"], r["cfg"], r.get("calls", 0)), r["what"])
 
 
 # ---------------------------------------------------------------------------- trace validation of parse events
@@ -347,3 +356,79 @@ def api_behaviour_block(bid, hist, inputs):
             lines.append("p %d %d %s %s %d" % (e["s"], inputs[json.dumps(e["w"])], e["mode"], ",".join(map(str, e["rcs"])), 1 if e["sent"] else 0))
     lines.append("x")
     return lines
+
+
+
+# ---------------------------------------------------------------------------- corpus (MCCorpus.tla)
+def corpus_cfg(trees, recov=0, treecap=400):
+    return """SPECIFICATION Spec
+CONSTANTS
+  EmitTrees = %s
+  Recov = %d
+  TreeCap = %d
+INVARIANTS Emit
+CHECK_DEADLOCK FALSE
+""" % ("TRUE" if trees else "FALSE", recov, treecap)
+
+
+def corpus_vectors(res, scratch, tag, entries, trees=False, recov=0, timeout=1500, treecap=400):
+    """TLC judges every corpus entry x input; returns merged vectors {id: vec}."""
+    path = scratch.path("corpus_%s.json" % tag)
+    with open(path, "w") as f:
+        json.dump(entries, f)
+    t = run_tlc(scratch, "MCCorpus", corpus_cfg(trees, recov, treecap), tag, timeout=timeout, env={"CORPUS": path})
+    if t["status"] != "ok":
+        raise Infra("TLC corpus %s: %s\n%s" % (tag, t["status"], t["tail"][-3000:]))
+    res.add_tlc(t)
+    vecs = {}
+    seen = set()
+    for v in tlc_vectors(t["out"]):
+        cur = vecs.setdefault(v["id"], {"id": v["id"], "cases": []})
+        if "rules" in v:
+            cur.update({k: v[k] for k in ("terms", "rules", "dn", "ds")})
+        for c in v.get("cases", []):
+            key = (v["id"], json.dumps(c["w"]))
+            if key not in seen:
+                seen.add(key)
+                cur["cases"].append(c)
+    for v in vecs.values():
+        v["trees_emitted"] = trees
+        v["cases"].sort(key=lambda c: (len(c["w"]), c["w"]))
+    res.notes.setdefault("families", []).append({"tag": tag, "entries": len(entries), "judged_cases": len(seen),
+                                                 "tlc_distinct_states": t["distinct"], "tlc_wall_s": round(t["wall"], 1)})
+    return vecs
+
+
+def replay_vectors(res, vecs, make_blocks, builds, mine, libs=("c",), harness_args=()):
+    blocks = []
+    for g, vec in vecs.items():
+        b = make_blocks(vec)
+        if b is not None:
+            blocks.append(b)
+            if nontrivial_grammar(vec):
+                res.cov["distinct_nontrivial"] += 1
+            if len(res.cov["samples"]) < 3:
+                res.cov["samples"].append({"corpus_entry": g, "harness_block_head": b[:14]})
+    byg = {b[0][2:]: v for b in blocks for v in [vecs.get(b[0][2:])]}
+    for lib in libs:
+        for bdir in builds:
+            binary = os.path.join(bdir, "yv_replay" + ("xx" if lib == "c++" else ""))
+            recs, st = run_harness(binary, blocks, args=harness_args)
+            for r in recs:
+                if r.get("k") == "summary":
+                    res.cov["evaluations"] += r["parses"] + r["defs"]
+                    for key in ("hits", "sets", "recs", "trees"):
+                        res.notes[key] = res.notes.get(key, 0) + r.get(key, 0)
+                elif r.get("k") == "mismatch":
+                    key = mine(r)
+                    v = byg.get(r.get("g")) or {}
+                    rec = dict(r, build=os.path.basename(bdir), vector={k: v.get(k) for k in ("id", "rules", "terms")})
+                    if key:
+                        res.violation(key, rec)
+                    else:
+                        res.notes["other_property_mismatches"] = res.notes.get("other_property_mismatches", 0) + 1
+                elif r.get("e") == "Abort":
+                    blk = r.get("block")
+                    res.violation(abort_key(r), dict(r, build=os.path.basename(bdir), block=(blk or [])[:40]))
+            res.cov["traces_validated_against_impl"] += len(blocks)
+    return blocks
